@@ -112,6 +112,28 @@ ArrayCasesOf(c, n) == {[f |-> c.f, segs |-> c.segs, ps |-> ps,
                         impl |-> [i \in 1..n |-> Impl(c, ps[i])]] : ps \in [1..n -> Reps(c)]}
 ArrayCases == UNION {ArrayCasesOf(c, n) : c \in Configs, n \in ArrLens}
 
+\* longer arrays (lengths 4..12: e.g. a length equal to the number of coefficients makes a term matrix
+\* square), built by walking the sorted representatives with a stride: ascending, shuffled and descending
+RECURSIVE SortedSeq(_)
+SortedSeq(S) == IF S = {} THEN <<>>
+                ELSE LET m == CHOOSE x \in S : \A y \in S : x <= y IN <<m>> \o SortedSeq(S \ {m})
+RepSeq(c) == SortedSeq(Reps(c))
+Walk(c, n, stride, off) == LET r == RepSeq(c)  L == Len(r)
+                           IN [i \in 1..n |-> r[((off + (i - 1) * stride) % L) + 1]]
+LongCase(c, ps) == [f |-> c.f, segs |-> c.segs, ps |-> ps,
+                    acc |-> [i \in 1..Len(ps) |-> Required(c, ps[i])],
+                    impl |-> [i \in 1..Len(ps) |-> Impl(c, ps[i])]]
+\* the same over the representatives that are not refused (so that NASA-9 arrays are evaluated, not refused)
+InRepSeq(c) == SortedSeq({p \in Reps(c) : Required(c, p) # {0}})
+WalkIn(c, n, stride, off) == LET r == InRepSeq(c)  L == Len(r)
+                             IN [i \in 1..n |-> r[((off + (i - 1) * stride) % L) + 1]]
+LongInCases == {LongCase(c, WalkIn(c, n, st, off)) :
+                  c \in {d \in Configs : d.f = "nasa9"}, n \in 4..12, st \in {1, 2, 3}, off \in {0, 1}}
+LongArrayCases == LongInCases \cup {LongCase(c, Walk(c, n, st, off)) :
+                     c \in Configs, n \in 4..12, st \in {1, 3, 7}, off \in {0, 1}}
+                  \cup {LongCase(c, Walk(c, n, Len(RepSeq(c)) - 1, off)) :        \* descending
+                     c \in Configs, n \in 4..12, off \in {0, 2}}
+
 \* ---- a (trivial) state machine so that TLC has something to explore: the pair under test
 VARIABLES fam, k
 Init == fam \in Families /\ k \in 1..NCoef(fam)
